@@ -378,8 +378,11 @@ func main() {
 	if a.Thorough() {
 		nst = 60000
 	}
+	// the storage-contract sequences run in a phase of their own, after the DB-level jobs: those observe background
+	// work within time windows and must not see another load than before
+	var storJobs []job
 	for i := 0; i < nst; i++ {
-		jobs = append(jobs, job{Part: "stor", Index: i, Seed: a.Seed})
+		storJobs = append(storJobs, job{Part: "stor", Index: i, Seed: a.Seed})
 	}
 	// interleave the kinds so that the slow ones do not pile up at the end
 	sort.SliceStable(jobs, func(x, y int) bool { return jobs[x].Index < jobs[y].Index })
@@ -401,6 +404,23 @@ func main() {
 	close(ch)
 	wg.Wait()
 	res.Extra["harness_jobs_wall_s"] = time.Since(t0).Seconds()
+	t1 := time.Now()
+	ch2 := make(chan job)
+	for w := 0; w < 16; w++ {
+		wg.Add(1)
+		go func() {
+			defer wg.Done()
+			for j := range ch2 {
+				runJob(c, j, known, base)
+			}
+		}()
+	}
+	for _, j := range storJobs {
+		ch2 <- j
+	}
+	close(ch2)
+	wg.Wait()
+	res.Extra["storage_contract_jobs_wall_s"] = time.Since(t1).Seconds()
 	res.Extra["unreleased_iterator_after_close_observations (documented unsafe, not part of the verdict)"] = c.logs
 	res.Extra["file_storage_notes"] = c.notes
 	res.Extra["race_call_kinds_dropped_after_a_known_hang (unfixed tree only)"] = map[string]bool{
